@@ -5,6 +5,7 @@ package main
 
 import (
 	"fmt"
+	"runtime/debug"
 	"sort"
 	"strconv"
 	"strings"
@@ -166,7 +167,7 @@ func mkItem(s, e int64, text string) *astisub.Item {
 	return it
 }
 
-// safely runs f, returning the panic message if any
+// safely runs f, returning the panic message if any (with the innermost library frame)
 func safely(f func()) (p string) {
 	defer func() {
 		if x := recover(); x != nil {
@@ -174,10 +175,36 @@ func safely(f func()) (p string) {
 			if p == "" {
 				p = "panic"
 			}
+			p += " at " + panicSite()
 		}
 	}()
 	f()
 	return ""
+}
+
+// innermost stack frame inside the library under test: "function (file:line)"
+func panicSite() string {
+	st := string(debug.Stack())
+	lines := strings.Split(st, "\n")
+	for i := 0; i+1 < len(lines); i++ {
+		l := lines[i]
+		if strings.HasPrefix(l, "github.com/asticode/go-astisub.") {
+			fn := l
+			if k := strings.LastIndex(fn, "("); k > 0 {
+				fn = fn[:k]
+			}
+			fn = strings.TrimPrefix(fn, "github.com/asticode/go-astisub.")
+			loc := strings.TrimSpace(lines[i+1])
+			if k := strings.Index(loc, " +0x"); k > 0 {
+				loc = loc[:k]
+			}
+			if k := strings.LastIndex(loc, "/"); k >= 0 {
+				loc = loc[k+1:]
+			}
+			return fn + " (" + loc + ")"
+		}
+	}
+	return "unknown site"
 }
 
 // random cue list: n cues; grid: time unit; maxT: number of units
